@@ -106,6 +106,22 @@ def nondeterminism(M, roots, seed_params=()):
                             sl = fl.slice(a0, fl.node_of(n))
                             if fq in roots and not (sl["params"] & set(seed_params)):
                                 hits.append((fq, n, f"{d}({norm(a0)}) is not fed by the `seed` parameter"))
+                            elif fq in roots:
+                                # the seed must reach the constructor as it is: `seed or None` sends 0 to OS entropy, `seed % k` / abs() merge seeds
+                                for e in [a0] + list(sl["exprs"]):
+                                    for x in ast.walk(e):
+                                        lossy = None
+                                        if isinstance(x, ast.BoolOp) and any(isinstance(v, ast.Name) and v.id in seed_params for v in x.values):
+                                            lossy = "a falsy seed (0) is replaced"
+                                        elif isinstance(x, ast.IfExp) and any(isinstance(v, ast.Name) and v.id in seed_params for v in ast.walk(x.test)) \
+                                                and not (isinstance(x.test, ast.Compare) and isinstance(x.test.ops[0], (ast.Is, ast.IsNot))):
+                                            lossy = "the seed is replaced depending on its value"
+                                        elif isinstance(x, ast.BinOp) and isinstance(x.op, (ast.Mod, ast.FloorDiv, ast.BitAnd, ast.RShift)) \
+                                                and any(isinstance(v, ast.Name) and v.id in seed_params for v in ast.walk(x.left)):
+                                            lossy = "distinct seeds are merged"
+                                        if lossy:
+                                            hits.append((fq, n, f"{d}({norm(a0)}): {lossy} (`{norm(x)}`): for seed 0 the generator is seeded from OS entropy / "
+                                                                "the stream is not a function of the seed, so identical calls give different results"))
                     else:
                         hits.append((fq, n, f"call of {d}: result differs between runs"))
                 if isinstance(n.func, ast.Name) and n.func.id in ("hash", "id") and M.resolve(fq, n.func) is None:
